@@ -20,6 +20,10 @@ Tie to the code:
   * one input at a time: in one process, base -> a NEW object differing in a single physical input -> base again,
     for every input the response depends on; each run against the Lean model for its own inputs; a variant
     bit-identical to the base although the model says the input matters is `history-input-ignored-<input>`;
+  * GHE-level call history: build a real GHE, change the height, simulate(HOURLY / HYBRID) repeatedly; after every call
+    `ghe.radial_numerical` must hold the response of the current exchanger at the current height (fresh object, model);
+  * real exchangers: fluid thermal mass and R_b* targets come from pygfunction's own Fluid / SingleUTube on the user-level
+    inputs (ghelib.independent_fluid), not from the package's media / exchanger objects;
   * the 0.5 % finer-mesh claim: differential run of the Float model with 2x cells and dt/4
     (level translation_validation, reported in the evidence; not a theorem).
 """
@@ -110,7 +114,7 @@ def gen_real(rng, pipe_kind=None, H=None):
          "k_pipe": _round(rng.uniform(0.3, 0.6), 3), "rc_pipe": _round(rng.uniform(1.2e6, 2.2e6), 5),
          "k_grout": _round(rng.uniform(0.6, 2.5), 3), "rc_grout": _round(rng.uniform(1.5e6, 4.2e6), 5),
          "k_soil": _round(rng.uniform(0.8, 4.0), 3), "rc_soil": _round(rng.uniform(1.3e6, 3.9e6), 5),
-         "final_time": None}
+         "final_time": None, "fluid_temp": rng.choice([20.0, 20.0, 5.0, 10.0, 15.0, 25.0, 30.0])}
     if pipe_kind == "COAXIAL":
         f = min(1.0, (2 * r_b) / 0.14) * rng.uniform(0.85, 1.0)
         c["r_in"] = [_round(0.0442 * f / 2), _round(0.050 * f / 2)]
@@ -179,7 +183,7 @@ def build_bhe(c):
     from ghedesigner.enums import BHPipeType
     from ghedesigner.media import GHEFluid, Grout, Pipe, Soil
 
-    fluid = GHEFluid(fluid_str=c["fluid"][0], percent=c["fluid"][1])
+    fluid = GHEFluid(fluid_str=c["fluid"][0], percent=c["fluid"][1], temperature=c.get("fluid_temp", 20.0))
     bore = GHEBorehole(c["H"], c["D"], c["r_b"], x=0.0, y=0.0)
     grout = Grout(c["k_grout"], c["rc_grout"])
     soil = Soil(c["k_soil"], c["rc_soil"], 18.0)
@@ -202,6 +206,26 @@ def build_bhe(c):
     except Exception:  # noqa: BLE001
         info["Re"] = None
     return eq, info
+
+
+def independent_inputs(c):
+    """What the USER asked for, without the package's media / exchanger classes: the volumetric heat capacity of the
+    requested fluid from pygfunction's own Fluid (documented mixture codes, ghelib.independent_fluid) and, for a single
+    U-tube, R_f and the effective borehole resistance R_b* from pygfunction's own pipe classes."""
+    import pygfunction as gt
+
+    f = ghelib.independent_fluid({"fluid": (c["fluid"][0], c["fluid"][1]), "fluid_temp": c.get("fluid_temp", 20.0)})
+    ind = {"rc_fluid": float(f.rho * f.cp), "fluid": f"{c['fluid'][0]} {c['fluid'][1]} % at {c.get('fluid_temp', 20.0)} C"}
+    if c.get("pipe_kind") == "SINGLEUTUBE":
+        h = gt.pipes.convective_heat_transfer_coefficient_circular_pipe(c["m_flow"], c["r_in"], f.mu, f.rho, f.k, f.cp, 1.0e-6)
+        r_f = 1.0 / (h * 2.0 * math.pi * c["r_in"])
+        r_p = math.log(c["r_out"] / c["r_in"]) / (2.0 * math.pi * c["k_pipe"])
+        d = c["s"] / 2.0 + c["r_out"]
+        bore = gt.boreholes.Borehole(c["H"], c["D"], c["r_b"], 0.0, 0.0)
+        tube = gt.pipes.SingleUTube([(-d, 0.0), (d, 0.0)], c["r_in"], c["r_out"], bore, c["k_soil"], c["k_grout"], r_f + r_p)
+        ind["R_f"] = float(r_f)
+        ind["R_b"] = float(tube.effective_borehole_thermal_resistance(c["m_flow"], f.cp))
+    return ind
 
 
 def run_impl(c, shared=None):
@@ -282,6 +306,11 @@ def run_impl(c, shared=None):
     res["t_s"] = float(rn.t_s)
     res["calc_time"] = float(rn.calc_time_in_sec)
     res["cap"] = cap
+    if c.get("kind") == "real":
+        try:
+            res["independent"] = independent_inputs(c)
+        except Exception as e:  # noqa: BLE001
+            res["independent_error"] = f"{type(e).__name__}: {e}"[:200]
     if res["raised"] is None:
         res["lntts"], res["g"], res["g_bhw"] = (np.array(v, dtype=float) for v in (rn.lntts, rn.g, rn.g_bhw))
         # the very objects a caller is left with (not copies): what is returned and what hangs on the object
@@ -353,11 +382,17 @@ def predicate(c, res):
         fails.append(("wall-index", f"bh_wall_idx = {bh} ({where}) but the cell that starts at the borehole wall r_b = {inp[0]!r} is cell {wall} "
                                     f"(counts {counts})"))
     # -- fluid thermal mass
+    ind = res.get("independent") or {}
+    rc_fluid = ind.get("rc_fluid", inp[7])      # real exchangers: the requested fluid from pygfunction's own Fluid, not from the object
+    rb_star = ind.get("R_b", inp[9])            # single U-tubes: R_b* from pygfunction's own pipe class on the user-level inputs
+    src = f" (rho*cp of {ind['fluid']} = {rc_fluid!r} from pygfunction's own Fluid; the exchanger's fluid object says {inp[7]!r})" if ind else ""
     mass = math.fsum(float(rc[i]) * float(vol[i]) for i in range(nf))
-    want = 2.0 * math.pi * inp[2] ** 2 * inp[7]
+    want = 2.0 * math.pi * inp[2] ** 2 * rc_fluid
     m["fluid_mass_rel"] = rel(mass, want)
     if m["fluid_mass_rel"] > 1e-12:
-        fails.append(("fluid-thermal-mass", f"fluid cells hold {mass!r} J/K/m, the fluid in both legs holds {want!r}"))
+        fails.append(("fluid-thermal-mass", f"fluid cells hold {mass!r} J/K/m, the fluid in both legs holds {want!r}" + src))
+    if "R_f" in ind and rel(inp[8], ind["R_f"]) > 1e-9:
+        fails.append(("fluid-resistance", f"the exchanger's R_f = {inp[8]!r}, for the requested fluid and flow it is {ind['R_f']!r}"))
     v_or = [math.pi * float(edges[i + 1] ** 2 - edges[i] ** 2) for i in range(n)]
     m["vol_rel"] = max(rel(float(vol[i]), v_or[i]) for i in range(n))
     if m["vol_rel"] > 1e-9:
@@ -365,9 +400,10 @@ def predicate(c, res):
     # -- layer resistances
     lo, hi = nf, nf + nc + npi + ng
     rsum = math.fsum(math.log(float(r_out[i]) / float(r_in[i])) / (2.0 * math.pi * float(kk[i])) for i in range(lo, hi))
-    m["layers_rel"] = rel(rsum, inp[9])
+    m["layers_rel"] = rel(rsum, rb_star)
     if m["layers_rel"] > 1e-10:
-        fails.append(("layers-sum-Rb", f"layers between fluid and wall sum to {rsum!r}, R_b* = {inp[9]!r}"))
+        fails.append(("layers-sum-Rb", f"layers between fluid and wall sum to {rsum!r}, R_b* = {rb_star!r}"
+                                       + (" (from pygfunction's own SingleUTube on the user-level inputs)" if "R_b" in ind else "")))
     if not all(float(kk[i]) == inp[3] and float(rc[i]) == inp[4] for i in range(hi, n)):
         fails.append(("soil-properties", "soil cells do not carry the soil conductivity / heat capacity"))
     # -- response
@@ -484,12 +520,13 @@ def worker(c):
 
     try:
         kind = c.get("kind")
-        r = history_worker(c) if kind == "history" else one_at_a_time_worker(c) if kind == "one-at-a-time" else case_worker(c)
+        r = (history_worker(c) if kind == "history" else one_at_a_time_worker(c) if kind == "one-at-a-time"
+             else ghe_history_worker(c) if kind == "ghe-history" else case_worker(c))
         r.pop("refs", None)
         return r
     except Exception as e:  # noqa: BLE001
         tb = traceback.format_exc(limit=4).strip().splitlines()
-        return {"case": c, "history": c.get("kind") in ("history", "one-at-a-time"), "corr": [("worker-exception", f"{type(e).__name__}: {e} @ {tb[-3:] }"[:400])],
+        return {"case": c, "history": c.get("kind") in ("history", "one-at-a-time", "ghe-history"), "corr": [("worker-exception", f"{type(e).__name__}: {e} @ {tb[-3:] }"[:400])],
                 "fails": [], "metrics": {}, "info": {}, "elements": 0, "worker_exception": True}
 
 
@@ -948,6 +985,107 @@ def one_at_a_time_worker(c):
     return out
 
 
+
+# ----------------------------------------------------------------------------- GHE-level call history
+# The route the tool takes: a GHE owns one RadialNumericalBH (`ghe.radial_numerical`) and refreshes it in `simulate`.
+# After construction and after EVERY simulate call (HOURLY or HYBRID), at whatever height the exchanger now has, the radial
+# response the GHE holds (t_s, lntts, g, g_bhw, g_sts) must be that of the CURRENT equivalent exchanger at the CURRENT height:
+# bit-identical to a fresh RadialNumericalBH for `ghe.bhe.to_single()`, and equal to the Lean model for those inputs.
+def gen_ghe_history(rng):
+    dia = rng.choice([0.14, 0.15, 0.2])
+    phys = {"fluid": list(rng.choice(FLUIDS)), "fluid_temp": rng.choice([20.0, 10.0, 30.0]),
+            "grout": [_round(rng.uniform(0.6, 2.5), 3), _round(rng.uniform(2.0e6, 4.2e6), 5)],
+            "soil": [_round(rng.uniform(0.8, 4.0), 3), _round(rng.uniform(1.5e6, 3.5e6), 5), 18.0],
+            "pipe_k": _round(rng.uniform(0.3, 0.6), 3), "pipe_rho_cp": 1542000.0,
+            "borehole": [_round(rng.uniform(62, 138), 4), 2.0, dia], "flow": _round(rng.uniform(0.15, 0.8), 3)}
+    steps = []
+    for k in range(rng.randint(2, 4)):
+        steps.append([_round(rng.uniform(62, 138), 4), rng.choice(["HOURLY", "HOURLY", "HYBRID"])])
+    if not any(m == "HOURLY" for _, m in steps):
+        steps[-1][1] = "HOURLY"
+    return {"kind": "ghe-history", "phys": phys, "pipe_kind": rng.choices(["SINGLEUTUBE", "DOUBLEUTUBEPARALLEL"], [75, 25])[0],
+            "steps": steps, "H": 5000.0}
+
+
+def bhe_inputs(bhe):
+    R_b = float(bhe.calc_effective_borehole_resistance())
+    return [float(v) for v in (bhe.b.r_b, bhe.pipe.r_out, bhe.pipe.r_in, bhe.soil.k, bhe.soil.rhoCp, bhe.grout.rhoCp,
+                               bhe.pipe.rhoCp, bhe.fluid.rhoCp, bhe.R_f, R_b, bhe.b.H, bhe.k_s)]
+
+
+def ghe_history_worker(c):
+    import numpy as np
+    import ghedesigner.radial_numerical_borehole as rnb
+    from ghedesigner.enums import TimestepType
+
+    out = {"case": c, "ghe": True, "fails": [], "corr": [], "metrics": {}, "checked": 0, "methods": []}
+    ph = c["phys"]
+    phys = {"fluid": tuple(ph["fluid"]), "fluid_temp": ph.get("fluid_temp", 20.0), "grout": tuple(ph["grout"]), "soil": tuple(ph["soil"]),
+            "pipe_k": ph["pipe_k"], "pipe_rho_cp": ph["pipe_rho_cp"], "borehole": tuple(ph["borehole"]), "flow": ph["flow"]}
+    try:
+        ghe = ghelib.build_ghe(phys, c["pipe_kind"], [(0.0, 0.0), (5.0, 0.0)], ghelib.atlanta_loads(), 2, max_h=140.0, min_h=60.0,
+                               heights=[60.0, 100.0, 140.0])
+    except Exception as e:  # noqa: BLE001
+        out["build_failed"] = f"{type(e).__name__}: {e}"[:200]
+        return out
+
+    def check(k, what):
+        held = ghe.radial_numerical
+        with ghelib.quiet():
+            eq = ghe.bhe.to_single()
+            fresh = rnb.RadialNumericalBH(eq)
+            with np.errstate(all="ignore"):
+                fresh.calc_sts_g_functions(eq)
+        out["checked"] += 1
+        H = float(ghe.bhe.b.H)
+        period = lambda o: math.exp(float(o.lntts[-1])) * float(o.t_s) / 3600.0   # noqa: E731
+        diffs = []
+        if float(held.t_s) != float(fresh.t_s):
+            diffs.append(f"t_s {float(held.t_s)!r} vs {float(fresh.t_s)!r}")
+        for nm in ("lntts", "g", "g_bhw"):
+            a, b = np.asarray(getattr(held, nm), dtype=float), np.asarray(getattr(fresh, nm), dtype=float)
+            if a.shape != b.shape or not np.array_equal(a, b):
+                diffs.append(f"{nm}[-1] {float(a[-1]) if a.size else None!r} vs {float(b[-1])!r}")
+        try:
+            if held.g_sts is None or not np.array_equal(np.asarray(held.g_sts(np.asarray(held.lntts))), np.asarray(held.g)):
+                diffs.append("g_sts does not interpolate the held g")
+        except Exception as e:  # noqa: BLE001
+            diffs.append(f"g_sts raises {type(e).__name__}")
+        # the model for the current exchanger
+        inp = bhe_inputs(eq)
+        args = " ".join(core.rs(v) for v in [SQRT2, PI] + inp)
+        mo = drive_cached([f"radial-sts {args} none 1 1 none"])[0]
+        model_note = ""
+        if mo.startswith("ok"):
+            parts = mo.split("|")
+            ml, mg, mb = floats(parts[1]), floats(parts[2]), floats(parts[3])
+            for nm, mv, fv in (("lntts", ml, fresh.lntts), ("g", mg, fresh.g), ("g_bhw", mb, fresh.g_bhw)):
+                fv = np.asarray(fv, dtype=float)
+                if len(mv) != len(fv) or float(np.max(np.abs(np.array(mv) - fv) / np.maximum(1.0, np.abs(mv)))) > 1e-7:
+                    out["corr"].append(("ghe-sts-" + nm, f"fresh object for the GHE's current exchanger (H={H}) vs model: {nm}[-1] {float(fv[-1])!r} vs {mv[-1]!r}"))
+            hg = np.asarray(held.g, dtype=float)
+            if len(mg) == len(hg):
+                model_note = f"; the model for the current exchanger ends at g = {mg[-1]!r} after {math.exp(ml[-1]) * float(fresh.t_s) / 3600.0:.1f} h"
+        if diffs:
+            out["fails"].append(("ghe-radial-response-not-current",
+                                 f"after step {k} ({what}, H = {H} m) the radial response held by the GHE is not that of its current exchanger: it ends at "
+                                 f"{period(held):.1f} h with g = {float(np.asarray(held.g)[-1])!r}, a fresh RadialNumericalBH for ghe.bhe.to_single() ends at "
+                                 f"{period(fresh):.1f} h with g = {float(fresh.g[-1])!r}{model_note} ({'; '.join(diffs[:4])})"))
+
+    check(0, "construction")
+    for k, (H, method) in enumerate(c["steps"], 1):
+        ghe.bhe.b.H = float(H)            # what GHE.size does before every simulate
+        try:
+            with ghelib.quiet():
+                ghe.simulate(TimestepType[method])
+        except Exception as e:  # noqa: BLE001
+            out["corr"].append(("ghe-simulate-exception", f"simulate({method}) at H={H} raised {type(e).__name__}: {e}"[:300]))
+            break
+        out["methods"].append(method)
+        check(k, f"simulate({method})")
+    return out
+
+
 # ----------------------------------------------------------------------------- run
 def corpus_cases():
     d = core.CORPUS / "C10"
@@ -1004,6 +1142,11 @@ def run(ctx: core.Ctx):
         real = [gen_real(rng) for _ in range(n_real)]
         # make sure the ends of the height range are there
         real[0]["H"], real[1]["H"] = 400.0, 20.0
+        # every fluid at a non-zero concentration and at non-default temperatures
+        temps = [5.0, 10.0, 30.0, 15.0, 25.0, 8.0]
+        for k, c_ in enumerate(real[6:6 + (12 if quick else 60)]):
+            c_["fluid"] = list(FLUIDS[k % len(FLUIDS)])
+            c_["fluid_temp"] = temps[(k // len(FLUIDS) + k) % len(temps)]
         # wide grout annuli: the largest boreholes with the smallest pipes (r_b - sqrt2 r_po up to ~100 mm)
         for k, c_ in enumerate(real[2:2 + (4 if quick else 60)]):
             if c_["pipe_kind"] != "COAXIAL":
@@ -1028,7 +1171,8 @@ def run(ctx: core.Ctx):
         n_or, n_os = (3, 2) if quick else (30, 20)
         oat = [gen_one_at_a_time(rng, stub=False, h_max=150.0 if quick else 400.0) for _ in range(n_or)] \
             + [gen_one_at_a_time(rng, stub=True, h_max=150.0 if quick else 400.0) for _ in range(n_os)]
-        cases = cases + fine + real + stubs + hist + oat
+        ghes = [gen_ghe_history(rng) for _ in range(4 if quick else 40)]
+        cases = cases + fine + real + stubs + hist + oat + ghes
     # longest first so that the pool stays busy
     order = sorted(range(len(cases)), key=lambda i: -(cases[i].get("H") or 0) * (9 if cases[i].get("fine") else 1))
     try:
@@ -1037,7 +1181,7 @@ def run(ctx: core.Ctx):
         ctx.log("pool failed, running in-process:", type(e).__name__, e)
         results = [worker(cases[i]) for i in order]
 
-    fine_rows, worst, hist_samples, oat_samples = [], {}, [0], [0]
+    fine_rows, worst, hist_samples, oat_samples, ghe_samples = [], {}, [0], [0], [0]
 
     def note_corr(c, r):
         for stream, detail in r.get("corr", []):
@@ -1053,6 +1197,21 @@ def run(ctx: core.Ctx):
             ctx.count("worker-exception(reported as broken correspondence)")
             ctx.case(signature(c), False)
             note_corr(c, r)
+            return
+        if r.get("ghe"):
+            if "build_failed" in r:
+                ctx.count("build-failed(outside C10):ghe-history")
+                ctx.case(signature(c), False)
+                return
+            ctx.case(signature(c), True, {"ghe_history": c["steps"], "pipe": c["pipe_kind"]} if ghe_samples[0] < 1 else None)
+            ghe_samples[0] += 1
+            ctx.count("ghe-history:objects=" + c["pipe_kind"])
+            ctx.count("ghe-history:responses-checked", r["checked"])
+            for m_ in r["methods"]:
+                ctx.count("ghe-history:simulate=" + m_)
+            note_corr(c, r)
+            for key, what in r["fails"]:
+                ctx.finding(key, what, {"case": c})
             return
         if r.get("oat"):
             ctx.case(signature(c), True, {"one_at_a_time": r["inputs_tried"]} if oat_samples[0] < 1 else None)
@@ -1096,7 +1255,8 @@ def run(ctx: core.Ctx):
         ctx.count("H:" + bucket(inp[10], [0, 20.0001, 50, 100, 200, 300, 399.999, 401]))
         ctx.count("r_b_mm:" + bucket(inp[0] * 1000, [0, 50.001, 70, 90, 110, 119.999, 200]))
         if c["kind"] == "real":
-            ctx.count("fluid:" + c["fluid"][0])
+            ctx.count("fluid:" + c["fluid"][0] + ("" if c["fluid"][1] == 0 else "(mixture)"))
+            ctx.count("fluid_temp_C:" + str(c.get("fluid_temp", 20.0)))
             re = r["info"].get("Re")
             if re is not None:
                 ctx.count("flow:" + ("laminar(Re<2300)" if re < 2300 else "transitional(2300-4000)" if re < 4000 else "turbulent(Re>=4000)"))
